@@ -220,7 +220,43 @@ Definition reviewed : list (site * string) := [
   (("query.go", "ConstObject.ToValue", "set-index", "v"),
    "fresh value built at compile time");
   (("query.go", "Index.toIndices", "append", "xs"),
-   "xs is a fresh path built at compile time")
+   "xs is a fresh path built at compile time");
+  (("compiler.go", "compiler.compileArray", "code-const", "[]any{}"),
+   "the empty-array constant / the start value of the construction accumulator: ZERO capacity, so the first opappend allocates (theorem C05_append_no_alias relies on it)");
+  (("compiler.go", "compiler.compileArray", "code-const", "[]any{}"),
+   "the empty-array constant / the start value of the construction accumulator: ZERO capacity, so the first opappend allocates (theorem C05_append_no_alias relies on it)");
+  (("compiler.go", "compiler.compileArray", "code-const", "v"),
+   "the folded constant array: v := make([]any, l), len = cap, never an opappend target");
+  (("compiler.go", "compiler.compileFunc", "code-const", "env"),
+   "the $ENV object: a map (no capacity hazard), read-only at run time");
+  (("compiler.go", "compiler.compileModify", "code-const", "[]any{}"),
+   "the start value of _modify's list of paths to delete ($d): ZERO capacity, so every activation's first opappend allocates its own list (a constant with spare capacity here would be shared by all activations and runs: seeded change C05-r3b)");
+  (("compiler.go", "compiler.compileObject", "code-const", "map[string]any{}"),
+   "the empty-object constant: a map (no capacity hazard), read-only at run time");
+  (("compiler.go", "compiler.compileObject", "code-const", "w"),
+   "the folded constant object: a map, read-only at run time");
+  (("compiler.go", "compiler.compileQueryUpdate", "code-const", "xs"),
+   "a constant path built by toIndices: only read by setpath");
+  (("compiler.go", "compiler.compileCallInternal", "code-const-any", "c.codes[j+2].v"),
+   "copies the operand of an existing constant instruction (inlining of a one-instruction argument)");
+  (("compiler.go", "compiler.compileCallInternal", "code-const-any", "fn"),
+   "the [3]any describing a native call, not a JSON value");
+  (("compiler.go", "compiler.compileCallInternal", "code-const-any", "fn"),
+   "the [3]any describing a native call, not a JSON value");
+  (("compiler.go", "compiler.compileImport", "code-const-any", "vals"),
+   "data of an imported JSON file (from the module loader): stored into a variable, never an opappend target");
+  (("compiler.go", "compiler.compileImport", "code-const-any", "vals"),
+   "data of an imported JSON file (from the module loader): stored into a variable, never an opappend target");
+  (("compiler.go", "compiler.compileIndex", "code-const-any", "k"),
+   "a constant index (string or number)");
+  (("compiler.go", "compiler.compileTerm", "code-const-any", "toNumber(e.Number)"),
+   "a number constant");
+  (("compiler.go", "compiler.compileUnary", "code-const-any", "v"),
+   "a number constant (folded sign)");
+  (("func.go", "allocator.makeArray", "make-cap", "make([]any, l, max(l, c))"),
+   "storage of the reduction's allocator: registered as owned, grown in place only by updateArrayIndex of the same reduction (C02)");
+  (("operator.go", "funcOpSub", "make-cap", "make([]any, 0, len(l))"),
+   "local result of array subtraction, filled by append before it is returned; never a constant")
 ].
 
 Definition site_eqb (a b : site) : bool :=
